@@ -215,9 +215,49 @@ pub(crate) mod verif_timer {
         bits
     }
 
+    /// The thread-safe `Timer` facade (TimerFuture over a service whose lock is Sync), one timer, straight line:
+    /// register, optionally re-poll with a waker that differs only in its vtable, advance the clock past the deadline,
+    /// check_expirations() - optionally while "another thread holds the lock" (CONTENDED: a try_lock would fail once;
+    /// lock() just waits) - then observe is_terminated() BEFORE and after the re-poll.
+    /// C15: the due timer is woken exactly once through its latest waker and is no longer reported by next_expiration();
+    /// C17: is_terminated() becomes true exactly when Ready was yielded.
+    pub fn facade_scenario<S: Src>(s: &mut S, p: u32) -> u32 {
+        CLOCK.0.store(0, Ordering::Relaxed);
+        let svc = GenericTimerService::<CheckLock>::new(&CLOCK);
+        let dl = 1 + s.below(3) as u64;
+        let c = DualCell::new();
+        let mut f = ManuallyDrop::new(Timer::deadline(&svc, dl));
+        if (p & P17) != 0 { assert!(!f.is_terminated(), "C17 timer facade: a fresh TimerFuture reports terminated"); }
+        let wa = ManuallyDrop::new(mk_waker_a(&c));
+        let wb = ManuallyDrop::new(mk_waker_b(&c));
+        let r = { let mut cx = Context::from_waker(&wa); unsafe { Pin::new_unchecked(&mut *f) }.poll(&mut cx) };
+        oracle!(p, P15, r.is_pending(), "C15 timer facade: completed while the clock is below the deadline");
+        let second = s.flag();
+        if second {
+            let r = { let mut cx = Context::from_waker(&wb); unsafe { Pin::new_unchecked(&mut *f) }.poll(&mut cx) };
+            oracle!(p, P15, r.is_pending(), "C15 timer facade: completed while the clock is below the deadline");
+        }
+        oracle!(p, P15, svc.next_expiration() == Some(dl), "C15 timer facade: next_expiration() differs from the registered deadline");
+        CLOCK.0.store(dl + s.below(2) as u64, Ordering::Relaxed);
+        if s.flag() { CONTENDED.store(1, Ordering::Relaxed); }
+        svc.check_expirations();
+        CONTENDED.store(0, Ordering::Relaxed);
+        let (latest, stale) = if second { (c.b.get(), c.a.get()) } else { (c.a.get(), c.b.get()) };
+        oracle!(p, P15, latest == 1 && stale == 0, "C15 timer facade: check_expirations() did not wake the due timer exactly once through its latest waker");
+        oracle!(p, P15, svc.next_expiration().is_none(), "C15 timer facade: next_expiration() still reports an expired timer");
+        if (p & P17) != 0 { assert!(!f.is_terminated(), "C17 timer facade: is_terminated() is true although Ready has not been yielded yet"); }
+        let r = { let mut cx = Context::from_waker(&wb); unsafe { Pin::new_unchecked(&mut *f) }.poll(&mut cx) };
+        oracle!(p, P15, r.is_ready(), "C15 timer facade: a due timer did not complete after check_expirations()");
+        if (p & P17) != 0 { assert!(f.is_terminated() == r.is_ready(), "C17 timer facade: is_terminated() differs from 'completed'"); }
+        unsafe { ManuallyDrop::drop(&mut f) };
+        s.reached(latest);
+        latest
+    }
+
     #[no_mangle]
     pub fn fi_verif_replay_timer(name: &str, cfg: u32, p: u32, s: &mut ScriptSrc<'_>) -> bool {
         match name {
+            "timer_facade" => { facade_scenario::<_>(s, p); }
             "timer_hist_noop" => { hist::<NoopLock, _>(s, cfg, 64, p); }
             "timer_hist_check" => { hist::<CheckLock, _>(s, cfg, 64, p); }
             "timer_delay" => { delay_check::<_>(s, p); }
@@ -484,6 +524,12 @@ pub(crate) mod verif_timer {
             let svc = GenericTimerService::<NoopLock>::new(&CLOCK);
             repoll_after_ready(LocalTimer::deadline(&svc, 0));
         }
+        #[kani::proof]
+        #[kani::unwind(3)]
+        fn facade_c15() { let n = facade_scenario(&mut KaniSrc, P15); kani::cover!(n == 1, "W timer facade: woken once"); }
+        #[kani::proof]
+        #[kani::unwind(3)]
+        fn facade_c17() { let _ = facade_scenario(&mut KaniSrc, P17); }
         #[kani::proof]
         #[kani::unwind(3)]
         fn repoll_panics_send_facade() {
